@@ -13,6 +13,15 @@ ASSUMPTIONS = [
     "raise/warn policy (Spec.C10) are evaluated by the Lean driver on pairs of real evaluations: the "
     "new frame, and the reference frame in which every unseen value is replaced by a seen one",
     "which variables a column involves is taken from the term objects' var_names (C09 checks those)",
+    "about half of the new frames hand some used string / categorical columns over with pandas "
+    "'category' dtype declaring categories that no row has (absent training levels and labels unknown "
+    "to training, shuffled; `co` ordered or not): 'unseen' is decided from the values present in the "
+    "rows, so such a frame must behave like the plain-object reference frame (no raise / no warning "
+    "when no row is unseen)",
+    "missing values (None / NaN) in categorical columns of NEW data are not generated: the statement "
+    "speaks of levels absent in training and does not settle whether a missing value is one (the "
+    "unchanged library treats it as an unseen level: raises in 'error', zero row / appended group "
+    "otherwise)",
 ]
 TRUSTED = ["pandas Categorical(x, categories=...).codes == -1 for unseen values (modelled by isUnseen)"]
 
@@ -39,9 +48,16 @@ def gen_formula(r):
     return "y ~ " + r.choice(["", "", "0 + "]) + " + ".join(terms)
 
 
+DECLARABLE = ["f", "g", "h", "cu", "co"]      # string / categorical columns (k holds integers)
+
+
 def make_new(r, df, used):
     """rows of the training frame with unseen values placed in some used categorical variables;
-    returns (new frame, reference frame, {row: [vars]})"""
+    in about half of the frames some used categorical columns are handed over with pandas
+    'category' dtype DECLARING categories no row has (training levels that do not occur, and labels
+    absent from training: a filtered slice of a bigger frame) -- the policy is about the values
+    present in the rows, not about the declared categories.
+    returns (new frame, reference frame, {row: [vars]}, {var: [declared unused labels]})"""
     idx = [r.randrange(len(df)) for _ in range(r.randrange(2, 8))]
     nd = df.iloc[idx].reset_index(drop=True).copy()
     for c in CAT_VARS:
@@ -59,10 +75,24 @@ def make_new(r, df, used):
                     nd[v] = nd[v].astype(object)
                     nd.loc[k, v] = "NEW_" + v
                 rows.setdefault(k, []).append(v)
+    declared = {}
+    r2 = rng_for(r.random(), "declared")       # one draw from the case's stream
+    dcands = [v for v in DECLARABLE if v in used]
+    if dcands and r2.random() < 0.5:
+        for v in r2.sample(dcands, r2.randrange(1, len(dcands) + 1)):
+            present = list(dict.fromkeys(nd[v].tolist()))
+            absent = [l for l in designs.LV[v] if l not in present and r2.random() < 0.5]
+            extras = ["EXTRA_" + v] + (["ZZ_" + v] if r2.random() < 0.3 else [])
+            cats = present + absent + extras
+            r2.shuffle(cats)
+            # `co` was an ordered categorical in training; the new column may or may not be
+            nd[v] = pd.Categorical(nd[v].tolist(), categories=cats,
+                                   ordered=(v == "co" and r2.random() < 0.5))
+            declared[v] = extras
     # row labels must not matter: same (possibly permuted / non-unique) index on both frames
     nd = designs.scramble_index(r, nd)
     ref.index = nd.index
-    return nd, ref, rows
+    return nd, ref, rows, declared
 
 
 def evaluate(obj, nd, mode):
@@ -93,7 +123,8 @@ def explore(tier, seed, res=None, replay=None):
     from formulae.terms import Intercept
     res = res or Result()
     res.rule = ("generated designs x placements of unseen values in predictor / effect / grouping "
-                "variables (incl. one factor of an interaction) x 3 modes set through a sequence of "
+                "variables (incl. one factor of an interaction), new columns of object dtype or of category "
+                "dtype declaring unused categories, x 3 modes set through a sequence of "
                 "config changes, the same frame object evaluated again in the opposite order of "
                 "modes and after an in-place edit; non-trivial = a case with at least one unseen value; distinct by "
                 "(formula, placement, mode)")
@@ -119,7 +150,7 @@ def explore(tier, seed, res=None, replay=None):
             continue
         dm = obs["_dm"]
         used = set(dm.model.var_names)
-        nd, ref, rows = make_new(r, df, used)
+        nd, ref, rows, declared = make_new(r, df, used)
         # the evaluation model on the same new frame under the three policies
         obs_m, req_m = designs.observe(formula, df, designs.NAMES,
                                        [{"df": nd, "mode": m} for m in ("error", "warning", "silent")])
@@ -129,6 +160,10 @@ def explore(tier, seed, res=None, replay=None):
         for mode in ("error", "warning", "silent"):
             case = {"formula": formula, "seed_path": path, "mode": mode,
                     "unseen": {str(k): v for k, v in rows.items()}}
+            if declared:
+                case["declared_unused_categories"] = declared
+                res.count("evaluations_on_frames_declaring_unused_categories"
+                          + ("" if rows else "_and_no_unseen_row"))
             req = {"op": "c10_spec", "mode": mode}
             if dm.common is not None:
                 terms = list(dm.common.terms.values())
